@@ -138,7 +138,7 @@ def check_pure(spec, ha, hb, opname, muts):
 def mutate(spec, obj, kind, m, muts):
     """Apply one mutating event. Returns False if the mutation is not applicable."""
     if kind == "fill":
-        obj.fill(*m)
+        obj.fill(A.fresh(m[0]), m[1])
         return True
     if kind == "fillnp":
         if not S.fields(spec):
